@@ -21,10 +21,38 @@ def u1_filter(src, nbatches, nproducers, extra_index):
     # (implied by equality with the reference reader, which never lists a control batch)
 
 
+# ------------------------------------------------------------------------------------------
+# S1: the whole path from the wire -- Fetch responses of every protocol version that carries the
+# transactional fields -- through the real consumer
+
+
+FETCH_VERSION_CAPS = [4, 5, 7, 10, 11]
+
+
+def s1_fetch_versions(src, shape):
+    from . import conssim
+    cap = FETCH_VERSION_CAPS[src.choice("highest_fetch_version_of_the_broker", len(FETCH_VERSION_CAPS))]
+    iso = src.choice("isolation", 2)
+    cfg = {"isolation": iso, "policy": "earliest", "versions": {1: (0, cap)}, "seek_targets": [0, 1], "start": [None, 2][src.choice("start", 2)]}
+    res = conssim.run_consumer(src, shape, cfg, 2, max_faults=0)
+    used = sorted({a["req"].get("version") for a in res["cluster"].arrivals if a["req"]["api"] == "Fetch"})
+    src.note({"shape": shape, "fetch_versions_used": used, "trace": res.get("trace")})
+    src.check("deadlock" not in res, "consumer run did not finish in bounded virtual time: " + str(res.get("deadlock")))
+    src.check(used == [cap] or src.twin, f"the consumer did not use Fetch v{cap} against a broker whose highest version is {cap}", used=used)
+
+
 def harnesses(tier):
     q = tier == "quick"
     confs = [(1, 1, False), (2, 2, False), (3, 2, False)] if q else [(2, 2, True), (3, 3, False), (4, 2, False), (3, 2, True)]
     hs = []
+    for shape in (["txn_mixed"] if q else ["txn_mixed", "txn_open", "txn_same_pid", "v2_control"]):
+        hs.append(Harness(
+            name=f"S1_fetch_versions_{shape}", fn=s1_fetch_versions, params={"shape": shape},
+            functions=[PartitionRecords.__init__, PartitionRecords._unpack_records], shape="S",
+            symbolic_vars="choices: highest Fetch version the broker offers (4, 5, 7, 10, 11), isolation level, start position, two consumer calls, one batch or all per response",
+            bounds={"fetch_versions": FETCH_VERSION_CAPS, "calls": 2},
+            stubs=["SimConn broker model (Fetch v0-v11 per the protocol guide)", "virtual-time loop", "log built by the reference codec"],
+            max_seconds=300, max_paths=500000, twin_max_paths=300))
     for nb, npr, extra in confs:
         hs.append(Harness(
             name=f"U1_filter_{nb}batches_{npr}producers{'_laterindex' if extra else ''}", fn=u1_filter,
